@@ -183,7 +183,7 @@ mod dictionary {
     impl Codec for DictionaryCodec {
         /// Decode a sequence of byte slices.
         fn decode<'a>(&'a self, bytes: &'a [u8]) -> &'a [u8] {
-            if let Some(bytes) = self.decode.get(bytes[0].into()) {
+            if let Some(bytes) = bytes.first().and_then(|tag| self.decode.get((*tag).into())) {
                 bytes
             } else {
                 bytes
@@ -197,6 +197,11 @@ mod dictionary {
         where
             for<'a> R: Region + Push<&'a [u8]>,
         {
+            if bytes.is_empty() {
+                // The empty string has no first byte: store it as is and keep it out of the
+                // dictionary, where it could not be told from an unused tag.
+                return output.push(bytes);
+            }
             self.total += bytes.len();
             // If we have an index referencing `bytes`, use the index key.
             let index = if let Some(b) = self.encode.get(bytes) {
